@@ -38,9 +38,13 @@ ExecFinger(r) ==
             \cup (IF r.err # "" /\ p.wrap = "using" /\ r.path # FaultPath(p, RootSrc, RootTgt, FromJ(r["in"]), faults, <<>>)
                   THEN {<<"C07", "wrong-location-path", "", r.id>>} ELSE {})
 Rng(q) == {q[i] : i \in DOMAIN q}
+\* a wrap is emitted wherever a method calls something that can fail (the fallible extend function or a method returning error)
+EmitsWrap(p) == LET st == Gen(p).st IN
+                \E m \in DOMAIN st.ms : st.ms[m].body.k # "none" /\ (HasFallibleExt(st.ms[m].body) \/ \E c \in Calls(st.ms[m].body) : st.ms[c.callee].retErr)
 Finger18(r) ==
   IF r.gen # "ok" THEN {}
-  ELSE (IF Rng(r.imports) # {"user"} THEN {<<"C18", "imports-differ-from-owners-of-used-types", "calls", r.id>>} ELSE {})
+  ELSE (IF Rng(r.imports) # {"user"} \cup (IF r.wrap = "using" /\ EmitsWrap(ProgOf(r)) THEN {"wrap-pkg"} ELSE {})      \* the wrapErrorsUsing package when a wrap is emitted
+        THEN {<<"C18", "imports-differ-from-owners-of-used-types", "calls", r.id>>} ELSE {})
        \cup (IF \E i \in DOMAIN r.decls : r.decls[i] \notin {"struct", "method"} THEN {<<"C18", "extra-top-level-declaration", "calls", r.id>>} ELSE {})
 Finger(r) == IF r.exec THEN ExecFinger(r) ELSE GenFinger(r) \cup Finger18(r)
 VARIABLES l, bad
